@@ -25,7 +25,7 @@ class Ctx:
         s.kf = json.load(open(os.path.join(ROOT, 'known_findings.json')))
         s.my_kf = [k for k in s.kf['open'] if prop in k['affects']]
         s.registry = json.load(open(os.path.join(LEAN, 'theorems.json')))
-        s.scale = 1 if tier == 'quick' else 10
+        s.scale = 3 if tier == 'quick' else 30
 
 
 def sh(cmd, **kw):
